@@ -48,6 +48,11 @@ files = {
     "chanmeta_len_max": put("chanmeta_len", 0xFFFFFFFF - 3),
     "st_countlen_max": put("st_countlen", 0xFFFFFFFF),
     "ci_molen_max": put("ci_molen", 0xFFFFFFFF),
+    # a chunk whose record length is over any configured MaxRecordSize and whose compression-name length is mid-range:
+    # with a record size limit nothing proportional to either field may be allocated
+    "chunk_reclen_2p40_complen_2p27": put("chunk_complen", 2**27, put("reclen6", 2**40)),
+    "chunk_reclen_2p31_complen_2p30": put("chunk_complen", 2**30, put("reclen6", 2**31 + 7)),
+    "chunk_reclen_1m_complen_500k": put("chunk_complen", 500000, put("reclen6", 1 << 20)),
 }
 # the 47-byte backwards-seek file: unknown record then an attachment header with length 2^64-18
 files["neg_attachment_47"] = (mcapenc.MAGIC + mcapenc.frame(1, mcapenc.pstr(b"") + mcapenc.pstr(b"")) + mcapenc.frame(0x80, b"")
